@@ -900,13 +900,15 @@ pub fn canonicalize_query_to_string(query_parameters: &HashMap<String, Vec<Strin
         // Don't include the signature itself.
         if key != X_AMZ_SIGNATURE {
             for value in values.iter() {
-                results.push(format!("{}={}", key, value));
+                results.push((key.as_str(), value.as_str()));
             }
         }
     }
 
+    // Sort by parameter name, then by value. Sorting the rendered "name=value" strings would misplace names that
+    // extend another name with a character sorting below '=' (e.g. "a-" vs. "a").
     results.sort_unstable();
-    results.join("&")
+    results.into_iter().map(|(key, value)| format!("{}={}", key, value)).collect::<Vec<_>>().join("&")
 }
 
 /// Normalizes the specified URI path, removing redundant slashes and relative path components (unless performing S3
